@@ -146,7 +146,7 @@ pub fn get_reader(path: &str) -> Result<BufReader<Box<dyn Read + Sync + Send>>, 
         let is_zip = path.ends_with(".gz");
         let file = File::open(path).map_err(|_| format!("Unable to open: {}", path))?;
         if is_zip {
-            let decoder = flate2::read::GzDecoder::new(file);
+            let decoder = flate2::read::MultiGzDecoder::new(file);
             Ok(BufReader::new(Box::new(decoder)))
         } else {
             Ok(BufReader::new(Box::new(file)))
